@@ -830,7 +830,7 @@ def cond_equiv(f, a, b, max_atoms=12):
 
 
 # ------------------------------------------------------ path-sensitive guards
-def guard_paths(an, f, targets, limit=20000):
+def guard_paths(an, f, targets, limit=20000, avoid=()):
     """Acyclic normal-flow paths of f's CFG from the entry to any node id in
     `targets`.  Each path is the list of decisions taken on it:
     (resolved atom AST, polarity, test node), where an atom that is a plain
@@ -848,6 +848,8 @@ def guard_paths(an, f, targets, limit=20000):
                 limit, f.qname))
         if i in targets:
             out.append(list(lits))
+            return
+        if i in avoid:
             return
         n = c.nodes[i]
         if n.kind == 'done' and isinstance(n.ast, ast.Assign) and \
@@ -1202,3 +1204,16 @@ def kind_env(holder, present):
         env[x] = p
         env[x + ' is None'] = not p
     return env
+
+
+def literal_text(f, atom, polarity):
+    """(canonical positive atom text, polarity) of a decision: `a != b`
+    True and `a == b` False are the same literal."""
+    if isinstance(atom, str):
+        atom = _parse_expr(atom)
+    t = cond_tree(atom, f)
+    while t[0] == 'not':
+        t, polarity = t[1], not polarity
+    if t[0] == 'atom':
+        return t[1], polarity
+    return canon(f, atom), polarity
